@@ -149,6 +149,8 @@ func ReplaceEnums(ana *analysis.Analysis, content string) string {
 			panic("unknown enum type " + typeName + " in placeholder " + s)
 		}
 		enumValue := enum.Get(varName)
-		return fmt.Sprintf("%s /* %s.%s */", enumValue.Const.Val().ExactString(), typeName, varName)
+		// SQL uses single quotes for string literals
+		value := strings.ReplaceAll(enumValue.Const.Val().ExactString(), `"`, `'`)
+		return fmt.Sprintf("%s /* %s.%s */", value, typeName, varName)
 	})
 }
